@@ -81,6 +81,7 @@ func runWrites(c wcase) (state string, key, msg string) {
 			if err != nil || n != len(p) {
 				return "", "write-result", fmt.Sprintf("%+v: op %d Write(%d) returned (%d,%v)", c, i, o.A, n, err)
 			}
+			scribble(p) // io.Writer: the callee must not retain p; the caller reuses it at once
 		case "v":
 			a, b := fill(&seq, o.A), fill(&seq, o.B)
 			want = append(append(want, a...), b...)
@@ -88,6 +89,8 @@ func runWrites(c wcase) (state string, key, msg string) {
 			if err != nil || n != int64(len(a)+len(b)) {
 				return "", "writev-result", fmt.Sprintf("%+v: op %d Writev(%d,%d) returned (%d,%v)", c, i, o.A, o.B, n, err)
 			}
+			scribble(a) // the channel's sender recycles its packets right after Writev and flushes later
+			scribble(b)
 		case "f":
 			if err := t.Flush(); err != nil {
 				return "", "flush-result", fmt.Sprintf("%+v: op %d Flush returned %v", c, i, err)
@@ -101,6 +104,12 @@ func runWrites(c wcase) (state string, key, msg string) {
 		}
 	}
 	return fmt.Sprint(len(want), len(conn.got)), "", ""
+}
+
+func scribble(b []byte) {
+	for i := range b {
+		b[i] = 0xEE
+	}
 }
 
 func clip(b []byte) []byte {
@@ -290,7 +299,7 @@ func build(tier string) []*explore.Scenario {
 func main() {
 	explore.Main(explore.Spec{
 		Property: "C17",
-		Rule:     "every sequence of Write(s) / Writev(s1,s2) / Flush up to depth 3-4 (thorough 4-5) with s in {0,1,buf-1,buf,buf+1,2buf+1} on all four wrapper variants x write buffers {1,4,16,64}, each also closed by a final Flush, against a byte-queue model (peer bytes are always a prefix of the bytes written in call order, and equal after every Flush); read side: every fragmentation (all 2^(n-1) compositions) of peer streams up to 9 (thorough 12) bytes plus 17/33/40-byte streams with 2-3 fragments, read buffers {none,1,16,64}, caller read-size patterns incl. mixed small/large reads; distinct = distinct cases",
+		Rule:     "every sequence of Write(s) / Writev(s1,s2) / Flush up to depth 3-4 (thorough 4-5) with s in {0,1,buf-1,buf,buf+1,2buf+1} on all four wrapper variants x write buffers {1,4,16,64}, each also closed by a final Flush, with the caller overwriting its buffers right after every call, against a byte-queue model (peer bytes are always a prefix of the bytes written in call order, and equal after every Flush); read side: every fragmentation (all 2^(n-1) compositions) of peer streams up to 9 (thorough 12) bytes plus 17/33/40-byte streams with 2-3 fragments, read buffers {none,1,16,64}, caller read-size patterns incl. mixed small/large reads; distinct = distinct cases",
 		Assume:   []string{"a fake net.Conn that accepts every write and serves scripted fragments", "single goroutine"},
 		Build:    build,
 	})
